@@ -574,10 +574,11 @@ def expansionShape : List (Nat × ν) → Shape ν → Nat → Nat → Outcome (
         | .panic k => .panic k
       | .panic k => .panic k
 
-/-- stable insertion sort by position (`dimensions.sort_by(|a, b| a.0.cmp(&b.0))`) -/
+/-- stable insertion sort by position (`dimensions.sort_by(|a, b| a.0.cmp(&b.0))`): an element
+    is inserted *before* the later elements with an equal position -/
 def insertByPos (x : Nat × ν) : List (Nat × ν) → List (Nat × ν)
   | [] => [x]
-  | y :: ys => if x.1 < y.1 then x :: y :: ys else y :: insertByPos x ys
+  | y :: ys => if x.1 ≤ y.1 then x :: y :: ys else y :: insertByPos x ys
 
 def sortByPos : List (Nat × ν) → List (Nat × ν)
   | [] => []
@@ -585,7 +586,6 @@ def sortByPos : List (Nat × ν) → List (Nat × ν)
 
 /-- `TensorExpansion` -/
 def TView.expansion (src : TView ν) (extra : List (Nat × ν)) : Outcome (TView ν) :=
-  -- a stable sort keeps equal positions in their given order: insert from the right
   let sorted := sortByPos extra
   match expansionShape sorted src.shape 0 (src.shape.length + extra.length) with
   | .panic k => .panic k
